@@ -310,7 +310,7 @@ def jobs(tier, seed):
     if tier != 'quick':
         add(3, 3, (), 100, budget=3000)
     cells = [(i, j) for i in range(3) for j in range(3)]
-    for k in ([] if tier == 'quick' else [1, 2]):
+    for k in []:       # 3x3 with missing pairs: 45 patterns x 2 domains x ~30k paths each -- beyond the thorough budget (measured)
         for miss in itertools.combinations(cells, k):
             add(3, 3, miss, 90, budget=3000)
     return out
@@ -318,7 +318,7 @@ def jobs(tier, seed):
 
 def bounds_text(tier):
     return ("get_dtype: all integers lo <= hi in [-2**63, 2**64) (no size bound); tables 1x1..3x2/2x3 with every missing-pair "
-            "pattern (quick: 2x3/3x2 only complete and non-negative), 3x3 boolean complete (thorough: 3x3 integer complete and with 1-2 missing pairs, prefix-split over the pool); integer weights "
+            "pattern (quick: 2x3/3x2 only complete and non-negative), 3x3 boolean complete (thorough: 3x3 integer complete, prefix-split over the pool, and every missing-pair pattern of 2x3/3x2); integer weights "
             "symbolic; complete tables over the whole documented range split into the two domains [0, 2**64) and "
             "[-2**63, 2**63); sparse tables with per-weight ranges [0, (2**64-2)//rows] and [-2**63, (2**63-2)//rows] so that "
             "the internal sentinel stays representable (the complement is the region of the listed findings, explored by "
